@@ -42,6 +42,14 @@ class _StrAcc:
     def len(self):
         return Series([len(v) for v in self.s.data], self.s.index, self.s.name)
 
+    def cat(self, others=None, sep=''):
+        if others is None:
+            return sep.join(self.s.data)
+        if isinstance(others, Series):
+            others = [others]
+        cols = [list(o.data) if isinstance(o, Series) else list(o) for o in others]
+        return Series([sep.join([v] + [c[i] for c in cols]) for i, v in enumerate(self.s.data)], self.s.index, self.s.name)
+
     def replace(self, a, b):
         return Series([v.replace(a, b) for v in self.s.data], self.s.index, self.s.name)
 
@@ -81,6 +89,9 @@ class Series:
 
     def to_list(self):
         return list(self.data)
+
+    def to_numpy(self, *a, **k):
+        return Values(self.data)
 
     def copy(self):
         return Series(self.data, self.index, self.name)
@@ -378,6 +389,9 @@ class DataFrame:
     @property
     def values(self):
         return Values([Values(r) for r in self.rows])
+
+    def to_numpy(self, *a, **k):
+        return self.values
 
     def groupby(self, by, as_index=True):
         return _GroupBy(self, by, as_index)
